@@ -23,9 +23,9 @@ pub struct Dims {
     pub carrier: u8,  // 0 one, 1 none, 2 both, 3 both (the other carrier present but not SigV4)
     pub alg: u8,      // 0 ok, 1 other, 2 the right name in lower case, 3 the right name with a suffix
     pub syntax: u8,   // 0 ok, 1 token without '=' (header carrier only)
-    pub missing: u8,  // bit 0 credential, 1 signature, 2 signed headers, 3 date
+    pub missing: u8,  // bit 0 credential, 1 signature, 2 signed headers, 3 date; bit 4: what is missing is present in the OTHER carrier's spelling (all four when nothing is missing) -- a decoy that must not be consulted
     pub reqs: u8,     // 0 ok, 1 host unsigned, 2 always-header unsigned, 3 if-header unsigned, 4 prefix header unsigned
-    pub date: u8,     // 0 in window, 1 malformed, 2 expired, 3 future, 4 a well-formed in-window timestamp followed by extra characters, 5 ... cut short by one character, 6 expired by half a second (fractional timestamp), 7 in the future by half a second
+    pub date: u8,     // 0 in window, 1 malformed, 2 expired, 3 future, 4 a well-formed in-window timestamp followed by extra characters, 5 ... cut short by one character, 6 expired by half a second (fractional timestamp), 7 in the future by half a second, 8 inside the window by half a second (fractional), 9 exactly on the future edge with a nine-digit fraction (8 and 9 are no defects)
     pub cred: u8,     // 0 ok, 1 four parts, 2 six parts, 3 region, 4 service, 5 terminator, 6 date, 7 all wrong
     pub provider: u8, // 0 key, 1 ExpiredToken, 2 InvalidClientTokenId, 3 IO, 4 MalformedQueryString, 5 foreign
     pub sig: u8,      // 0 ok, 1 wrong (64 hex), 2 too long (65), 3 empty, 4 truncated (63), 5 valid under the all-zero key, 6 valid under the all-0xFF key
@@ -43,7 +43,7 @@ impl Dims {
         v.set(Stage::Carrier, self.carrier);
         v.set(Stage::Algorithm, self.alg);
         v.set(Stage::Syntax, if self.query_carrier { 0 } else { self.syntax });
-        v.set(Stage::Missing, self.missing);
+        v.set(Stage::Missing, self.missing & 15);
         v.set(Stage::Requirements, self.reqs);
         v.set(Stage::DateFormat, if self.date == 1 || self.date == 4 || self.date == 5 { self.date } else { 0 });
         v.set(Stage::Expired, if self.date == 2 { 1 } else if self.date == 6 { 2 } else { 0 });
@@ -117,6 +117,18 @@ pub fn materialize(d: &Dims) -> Option<Case> {
             let c = plan.instant.compact();
             plan.date_text = format!("{},500Z", &c[..c.len() - 1]);
         }
+        8 => {
+            // inside the window by half a second, written with a fraction
+            plan.instant = Instant::new(now.secs + 899, 500_000_000);
+            let c = plan.instant.compact();
+            plan.date_text = format!("{}.5Z", &c[..c.len() - 1]);
+        }
+        9 => {
+            // exactly on the future edge, written with a nine-digit fraction
+            plan.instant = Instant::new(now.secs + 900, 0);
+            let c = plan.instant.compact();
+            plan.date_text = format!("{}.000000000Z", &c[..c.len() - 1]);
+        }
         4 => plan.date_text = format!("{}junk", plan.instant.compact()),
         5 => {
             let c = plan.instant.compact();
@@ -158,6 +170,42 @@ pub fn materialize(d: &Dims) -> Option<Case> {
         1 => plan.wire_query = Some("k=v&bad=%zz".into()),
         2 => plan.wire_query = Some("k=v&bad=%".into()),
         _ => {}
+    }
+    if d.missing & 16 != 0 {
+        // decoys: the parameters this carrier lacks (all four if it lacks none), spelled the way the other carrier
+        // spells them. They are ordinary query parameters / an ordinary header here, covered by the signature like
+        // any other, and do not make up for what is missing.
+        let bits = if d.missing & 15 == 0 { 15 } else { d.missing & 15 };
+        match carrier {
+            Carrier::Header => {
+                let mut decoys: Vec<(Vec<u8>, Vec<u8>)> = Vec::new();
+                if bits & 1 != 0 {
+                    decoys.push((b"X-Amz-Credential".to_vec(), format!("{}/{}", plan.access_key, plan.scope).into_bytes()));
+                }
+                if bits & 2 != 0 {
+                    decoys.push((b"X-Amz-Signature".to_vec(), vec![b'0'; 64]));
+                }
+                if bits & 4 != 0 {
+                    let mut l = plan.signed.clone();
+                    l.sort();
+                    decoys.push((b"X-Amz-SignedHeaders".to_vec(), l.join(";").into_bytes()));
+                }
+                if bits & 8 != 0 {
+                    decoys.push((b"X-Amz-Date".to_vec(), plan.date_text.clone().into_bytes()));
+                }
+                if let Some(q) = plan.wire_query.as_mut() {
+                    q.push('&');
+                    q.push_str(&refmodel::sign::spell_query(&decoys));
+                }
+                plan.url_params.extend(decoys);
+            }
+            Carrier::Query => {
+                if bits & 8 != 0 {
+                    plan.headers.push(("X-Amz-Date".into(), plan.date_text.clone().into_bytes()));
+                    plan.headers.push(("Date".into(), b"Sun, 30 Aug 2015 12:36:00 GMT".to_vec()));
+                }
+            }
+        }
     }
     let built = build(&plan);
     let mut w = WireReq::from_wire(&built.wire);
@@ -458,7 +506,7 @@ fn dims_space(thorough: bool, query_carrier: bool) -> Vec<Vec<u8>> {
             full(4),
             full(4),
             if query_carrier { vec![0] } else { full(2) },
-            full(16),
+            full(32),
             full(5),
             full(8),
             full(8),
@@ -473,7 +521,7 @@ fn dims_space(thorough: bool, query_carrier: bool) -> Vec<Vec<u8>> {
             full(4),
             vec![0, 1, 2],
             if query_carrier { vec![0] } else { full(2) },
-            vec![0, 1, 2, 4, 8, 15],
+            vec![0, 1, 2, 4, 8, 15, 16, 24, 31],
             vec![0, 1, 2, 4],
             vec![0, 1, 2, 3, 4, 6, 7],
             vec![0, 1, 2, 3, 6, 7],
@@ -645,7 +693,7 @@ pub fn run(ctx: &Ctx) -> Report {
     Report {
         stats: st,
         rule: format!(
-            "precedence automaton over the 14 documented stages; full product of defect vectors per carrier ({} header-carrier, {} query-carrier vectors): path {{ok, %zz, trailing %, above root, '*'}} x query {{ok, %zz, trailing %}} x carrier {{one, none, both, both with a non-SigV4 second carrier}} x algorithm x parameter syntax x missing ⊆ {{credential, signature, signed headers, date}} x requirements {{ok, host, always, conditional, prefix unsigned}} x date {{in window, malformed, expired, future, well-formed + trailing characters, well-formed cut short, expired / future by half a second}} x credential {{ok, 4 parts, 6 parts, region, service, terminator, date, all wrong}} x provider {{key, ExpiredToken, InvalidClientTokenId, IO, MalformedQueryString, foreign}} x signature {{ok, wrong, too long, empty, truncated}} x session token {{absent, present}}{}; every vector with at most two defects is validated right after the fully valid request on the same thread; every vector is materialised as a concrete request (correctly signed wherever a signature is still meaningful; 1 in 16 cross-checked against the reference verifier) and replayed on sigv4_validate_request: kind, code, status, downcast to SignatureError, status class and provider consultation compared with the automaton's terminal; plus 5 defective paths x 4 form content types (unknown / empty / no / UTF-8 charset) x 3 bodies (fine, undecodable, bad escape) with folding on, which are refused for their path; plus the kind->(code,status) table for every variant directly and through From<Box<dyn Error>>. states = (stage, vector prefix) pairs of the model; transitions = stage steps",
+            "precedence automaton over the 14 documented stages; full product of defect vectors per carrier ({} header-carrier, {} query-carrier vectors): path {{ok, %zz, trailing %, above root, '*'}} x query {{ok, %zz, trailing %}} x carrier {{one, none, both, both with a non-SigV4 second carrier}} x algorithm x parameter syntax x missing ⊆ {{credential, signature, signed headers, date}}, each also with what is missing (or all four) present in the other carrier's spelling as a decoy (X-Amz-* query parameters next to header authentication, X-Amz-Date / Date headers next to query authentication) x requirements {{ok, host, always, conditional, prefix unsigned}} x date {{in window, malformed, expired, future, well-formed + trailing characters, well-formed cut short, expired / future by half a second}} x credential {{ok, 4 parts, 6 parts, region, service, terminator, date, all wrong}} x provider {{key, ExpiredToken, InvalidClientTokenId, IO, MalformedQueryString, foreign}} x signature {{ok, wrong, too long, empty, truncated}} x session token {{absent, present}}{}; every vector with at most two defects is validated right after the fully valid request on the same thread; every vector is materialised as a concrete request (correctly signed wherever a signature is still meaningful; 1 in 16 cross-checked against the reference verifier) and replayed on sigv4_validate_request: kind, code, status, downcast to SignatureError, status class and provider consultation compared with the automaton's terminal; plus 5 defective paths x 4 form content types (unknown / empty / no / UTF-8 charset) x 3 bodies (fine, undecodable, bad escape) with folding on, which are refused for their path; plus the kind->(code,status) table for every variant directly and through From<Box<dyn Error>>. states = (stage, vector prefix) pairs of the model; transitions = stage steps",
             sizes[0], sizes[1], if thorough { "" } else { " (quick: a sub-lattice with at least one defect variant per stage and missing ∈ {none, each singleton, all})" }
         ),
         bounds: json!({"header_vectors": sizes[0], "query_vectors": sizes[1]}),
